@@ -86,8 +86,10 @@ type vrfRef struct {
 	issued  map[string][]string // every id returned per mailbox (since the last restart: the live ones)
 	touched map[string]int // step of the last mutation per mailbox
 	gone    []string       // box+"/"+id of every message that left
-	// ids handed out by the current process (the state of the id generator)
+	// ids handed out by the current process (the state of the id generator) and the step at which
+	// that process started (which generator channel is the live one)
 	sinceRestart int
+	restartStep  int
 }
 
 // vrfNames: 0 = two unrelated names; 1 = two names whose SHA-1 share the first 3 hex digits (same
@@ -142,7 +144,7 @@ func (r *vrfRef) shape(names []string) int {
 	for _, nm := range names {
 		h = vrfMixInt(h, len(r.issued[nm]))
 	}
-	return vrfMixInt(h, r.sinceRestart)
+	return vrfMixInt(vrfMixInt(h, r.sinceRestart), r.restartStep)
 }
 
 func (r *vrfRef) drop(box string, i int) {
@@ -346,6 +348,7 @@ func VerifC10History(k int, mcap int, pre int, nset int) {
 			// ids issued before the restart to messages that are gone are out of the new process's
 			// sight; the live ones must still never be handed out again
 			ref.sinceRestart = 0
+			ref.restartStep = step
 			for _, nm := range names {
 				ref.issued[nm] = nil
 				for _, m := range ref.boxes[nm] {
